@@ -599,6 +599,8 @@ def run(ctx):
     retain_then_drop_part(ctx)
     user_part(ctx)
     row_return_part(ctx)
+    from .. import pycorr
+    pycorr.run(ctx)
 
     def search(disagreements):
         before = len(rep.oracle_failures)
